@@ -16,7 +16,34 @@ import (
 
 var valueHelpers = []string{"MinLength", "MaxLength", "Pattern", "UniqueItems", "Enum", "EnumCase", "MinItems", "MaxItems", "Required", "RequiredString", "RequiredNumber", "ReadOnly", "FormatOf"}
 
+// paramPos: the position of each role in the signatures the rules refer to. Exported signatures are API (a
+// position cannot change without breaking callers); parameter NAMES are not, so roles are resolved by position.
+var paramPos = map[string]map[string]int{
+	"MinLength":                           {"data": 2, "minLength": 3},
+	"MaxLength":                           {"data": 2, "maxLength": 3},
+	"MinItems":                            {"size": 2, "minimum": 3},
+	"MaxItems":                            {"size": 2, "maximum": 3},
+	"RequiredString":                      {"data": 2},
+	"RequiredNumber":                      {"data": 2},
+	"Pattern":                             {"data": 2, "pattern": 3},
+	"FormatOf":                            {"format": 2, "data": 3},
+	"Enum":                                {"data": 2, "enum": 3},
+	"EnumCase":                            {"data": 2, "enum": 3},
+	"Required":                            {"data": 2},
+	"ReadOnly":                            {"ctx": 0, "data": 3},
+	"UniqueItems":                         {"data": 2},
+	"withOperation":                       {"ctx": 0, "operation": 1},
+	"AgainstSchema":                       {"schema": 0, "data": 1, "formats": 2},
+	"(*pathHelper).stripParametersInPath": {"path": 1},
+	"(*pathHelper).extractPathParams":     {"path": 1},
+}
+
 func paramNamed(f *ssa.Function, name string) *ssa.Parameter {
+	if m, ok := paramPos[core.FuncName(f)]; ok {
+		if k, ok := m[name]; ok && k < len(f.Params) {
+			return f.Params[k]
+		}
+	}
 	for _, p := range f.Params {
 		if p.Name() == name {
 			return p
